@@ -246,26 +246,14 @@ func (writer prollyKeylessSecondaryWriter) ValidateKeyViolations(ctx context.Con
 }
 
 // trimKeyPart will trim entry into the sql.Row depending on the prefixLengths
-func (writer prollyKeylessSecondaryWriter) trimKeyPart(to int, keyPart interface{}) interface{} {
+func (writer prollyKeylessSecondaryWriter) trimKeyPart(ctx context.Context, to int, keyPart interface{}) (interface{}, error) {
 	var prefixLength uint16
 	if len(writer.prefixLengths) > to {
 		prefixLength = writer.prefixLengths[to]
 	}
-	if prefixLength != 0 {
-		switch kp := keyPart.(type) {
-		case string:
-			if prefixLength > uint16(len(kp)) {
-				prefixLength = uint16(len(kp))
-			}
-			keyPart = kp[:prefixLength]
-		case []uint8:
-			if prefixLength > uint16(len(kp)) {
-				prefixLength = uint16(len(kp))
-			}
-			keyPart = kp[:prefixLength]
-		}
-	}
-	return keyPart
+	// TrimValueToPrefixLength unwraps values that were read back from out-of-band
+	// storage (sql.StringWrapper / sql.BytesWrapper) before trimming them.
+	return val.TrimValueToPrefixLength(ctx, keyPart, prefixLength)
 }
 
 // Insert implements the interface indexWriter.
@@ -275,7 +263,10 @@ func (writer prollyKeylessSecondaryWriter) Insert(ctx context.Context, sqlRow sq
 		if err != nil {
 			return err
 		}
-		keyPart := writer.trimKeyPart(to, v)
+		keyPart, err := writer.trimKeyPart(ctx, to, v)
+		if err != nil {
+			return err
+		}
 		if err := tree.PutField(ctx, writer.mut.NodeStore(), writer.keyBld, to, keyPart); err != nil {
 			return err
 		}
@@ -349,7 +340,10 @@ func (writer prollyKeylessSecondaryWriter) checkForUniqueKeyError(ctx context.Co
 			if err != nil {
 				return err
 			}
-			remappedSqlRow[to] = writer.trimKeyPart(to, v)
+			remappedSqlRow[to], err = writer.trimKeyPart(ctx, to, v)
+			if err != nil {
+				return err
+			}
 		}
 		keyStr := FormatKeyForUniqKeyErr(ctx, prefixKey, writer.prefixBld.Desc, remappedSqlRow)
 		writer.hashBld.PutRaw(0, k.GetField(k.Count()-1))
@@ -383,7 +377,10 @@ func (writer prollyKeylessSecondaryWriter) Delete(ctx context.Context, sqlRow sq
 		if err != nil {
 			return err
 		}
-		keyPart := writer.trimKeyPart(to, v)
+		keyPart, err := writer.trimKeyPart(ctx, to, v)
+		if err != nil {
+			return err
+		}
 		if err := tree.PutField(ctx, writer.mut.NodeStore(), writer.keyBld, to, keyPart); err != nil {
 			return err
 		}
